@@ -33,7 +33,8 @@ def firstOf (k : Bytes) : List Args.KV → Option Bytes
   | [] => none
   | (k', v) :: r => if k' == k then some v else firstOf k r
 
-/-- `(*Status).DecodeQuery` after `Clear()`. `none` = Go panics while un-quoting.
+/-- `(*Status).DecodeQuery` after `Clear()`. `none` = Go panics while un-quoting (goutil's own
+    `hex2intTable` has 255 entries: `%` followed within two bytes by `0xff`; `HexTab.short`).
     (The scanner decodes every pair up to the one that completes the triple; a panic in a later
     pair is therefore not reached — modelled by `scanUntil`.) -/
 def decodeFrom (pairs : List Args.KV) : Status :=
@@ -44,7 +45,7 @@ def decodeFrom (pairs : List Args.KV) : Status :=
     cause := firstOf kCause pairs }
 
 def decode (b : Bytes) : Option Status :=
-  if b.isEmpty then some zero else (Args.scanAll b).map decodeFrom
+  if b.isEmpty then some zero else (Args.scanAll .short b).map decodeFrom
 
 end Status
 end Teleport
